@@ -10,7 +10,8 @@ PROPS = {
                     "beyond the bound and schedules are sampled."),
         level_note="Trusts the harness model of 'consecutive failures'; timed recovery asserted only within measured clock bounds; concurrency sampled from the Go scheduler.",
         rule=("exhaustive: every outcome sequence over {ok,error,panic} up to the length bound x thresholds x "
-              "{zero,infinite} recovery x mock absent/present, plus rapid-drawn long sequences, a timed-recovery "
+              "{zero, 24 h, 290 years, MaxInt64} recovery x mock absent/present (the error kind rotates with the position: plain, cancelled, wrapped cancelled, deadline, "
+              "time-out), plus rapid-drawn long sequences, a timed-recovery "
               "variant whose oracle is bounded by measured clock readings, and concurrent callers; each case is run "
               "through a real client with the plugin installed and compared step by step with a consecutive-failure "
               "model. Non-trivial = the sequence drives the failure count past the threshold (a call is rejected, or "
@@ -46,7 +47,8 @@ PROPS["C18"] = dict(
     level_text=("Weight vectors up to a bound and outcome histories up to a bound are enumerated completely for all seven balancers with exact "
                 "per-cycle count oracles for the deterministic policies; a rapid state machine holds calls in flight so the true in-flight "
                 "vector is known and every least-active pick is checked against its argmin; failure-aware share reduction/restoration is "
-                "checked with wide statistical margins; concurrent callers are sampled for validity. Exploration with an exhaustive core."),
+                "checked with wide statistical margins; concurrent callers are sampled for validity. For the plain least-active balancer the client's server list "
+                "shrinks and grows between steps, also while calls are in flight. Exploration with an exhaustive core."),
     level_note="Random policies: only validity and bookkeeping are asserted, never a distribution beyond 6-sigma / factor-2 margins; schedules of concurrent callers are sampled.",
     rule=("cycles: every weight vector in the bound x 3 full cycles x balancer; histories: every outcome history up to the bound x weight vectors; "
           "leastactive-model: rapid-drawn start/finish(ok|error|panic) traces with calls held in flight; share: victim server failing for ever or k<w times; "
@@ -80,7 +82,8 @@ PROPS["C15"] = dict(
     level_text=("Model-based stateful testing: every call's recorded enter/exit trace, its result (each invoke handler wraps it on the way back) and its "
                 "error must equal the onion computed from a list model of the four chains a call crosses (client invoke, client io, service io, service "
                 "invoke). In-flight changes are made while the harness holds a call parked inside a chosen handler, so the order is owned by the harness. "
-                "Free-running concurrent Use/Unuse is sampled and checked for structural validity only."),
+                "Free-running concurrent Use/Unuse is sampled and checked for structural validity only. Handler lists are also kept by the caller and passed again "
+                "(Use(list...), Unuse(list...), the same list on the other side)."),
     level_note="Handlers installed twice at the same time are not generated (the statement does not settle their removal semantics). A chain is taken to be obtained per manager when the call reaches it.",
     rule=("onion-seq / onion-aliased: rapid-drawn histories of client/service Use, Unuse (including absent and already removed handlers) and calls with an optional "
           "short-circuit or injected error at any handler; non-trivial = the history contains a call after an Unuse of an installed handler with at least 2 others installed. "
@@ -97,7 +100,9 @@ PROPS["C19"] = dict(
     level_text=("(a) Model-based: subscribe/unsubscribe/unicast/multicast/broadcast/poll sequences through real clients over the mock transport; every return "
                 "value and every poll result must equal the FIFO model (nothing lost, duplicated, reordered or misdelivered), including polls that time out "
                 "and what OnUnsubscribe is handed. (b) Generated concurrent workloads with short poll time-outs so that time-outs race with publishes; the "
-                "recorded history must conserve every accepted token exactly once and keep per-publisher order. Schedules in (b) are sampled."),
+                "recorded history must conserve every accepted token exactly once and keep per-publisher order. Schedules in (b) are sampled. (c) forced interleavings "
+                "through the verif yield points. (d) The consumer is the library's own Prosumer: it subscribes to topics at generated moments during traffic and the broker "
+                "greets each subscription from OnSubscribe; what the callbacks receive is compared with what the broker accepted."),
     level_note="Heartbeat disabled (HeartBeat=0) as the statement presupposes a client that keeps polling; one poller per client id; (b) samples Go scheduler interleavings, it does not enumerate them.",
     rule=("sequential: rapid-drawn histories over 3 client ids x 2 topics; non-trivial = a publish was accepted for an id after one of its polls had timed out. "
           "concurrent: workloads of 1..4 publishers x 5..60 messages, 1..3 consumers, optional subscribe/unsubscribe churn, poll timeout 0.3-3ms; "
